@@ -178,36 +178,54 @@ def ascending (xs : List Nat) : List Nat := xs.mergeSort (fun a b => a ≤ b)
 def idsWith (rs : List Report) (b : Bucket) : List Nat := (rs.filter fun r => specBucket r.status == b).map (·.id)
 
 /-! ### clauses (per run) -/
-def rDict (es : List Event) (t : RunTrace) : Bool := t.dict == reports es
-def rTestsRun (es : List Event) (t : RunTrace) : Bool :=
-  t.summary.testsRun == ((reports es).filter fun r => r.status != .exist).length
+/-- the ids for which the extended result saw a `startTest` -/
+def startIds : List ExtEv → List Nat
+  | [] => []
+  | .startTest id :: es => id :: startIds es
+  | _ :: es => startIds es
+
+/-- every lifetime is handed to the consumer exactly once — when its final status arrives, or as incomplete when the
+run stops — **whether or not the consumer raises at a hand-over** (the fault plan does not occur on the right) -/
+def rDict (r : Run) (t : RunTrace) : Bool := t.dict == reports r.events
+def rTestsRun (r : Run) (t : RunTrace) : Bool :=
+  t.summary.testsRun == ((reports r.events).filter fun x => x.status != .exist).length
 /-- skip / xfail / uxsuccess land in the list their status names, in report order -/
-def rBuckets (es : List Event) (t : RunTrace) : Bool :=
-  t.summary.skipped == idsWith (reports es) .skipped
-    && t.summary.expectedFailures == idsWith (reports es) .expectedFailures
-    && t.summary.unexpectedSuccesses == idsWith (reports es) .unexpectedSuccesses
+def rBuckets (r : Run) (t : RunTrace) : Bool :=
+  t.summary.skipped == idsWith (reports r.events) .skipped
+    && t.summary.expectedFailures == idsWith (reports r.events) .expectedFailures
+    && t.summary.unexpectedSuccesses == idsWith (reports r.events) .unexpectedSuccesses
 /-- failed and incomplete tests land in exactly one of the two error lists (`fail` covers error and
 failure; testtools uses `errors`), nothing else does -/
-def rErrors (es : List Event) (t : RunTrace) : Bool :=
-  ascending (t.summary.errors ++ t.summary.failures) == ascending (idsWith (reports es) .errors)
-def rVerdict (es : List Event) (t : RunTrace) : Bool :=
-  !((reports es).any fun r => failedOrIncomplete r.status) || !t.summary.wasSuccessful
-/-- the extended result sees one well-formed bracket per report of the stream without its `exists`
-events: same id, the status's outcome, the report's tags, the supplied times, the same details -/
-def rExtended (es : List Event) (t : RunTrace) : Bool :=
-  match body t.ext with
-  | none => false
-  | some mid =>
-    match interp {} mid with
+def rErrors (r : Run) (t : RunTrace) : Bool :=
+  ascending (t.summary.errors ++ t.summary.failures) == ascending (idsWith (reports r.events) .errors)
+def rVerdict (r : Run) (t : RunTrace) : Bool :=
+  !((reports r.events).any fun x => failedOrIncomplete x.status) || !t.summary.wasSuccessful
+/-- the extended result is started exactly once for each report of the stream without its `exists` events, in
+order, whether or not it raises at an outcome; and when it never raises it sees one well-formed bracket per report:
+same id, the status's outcome, the report's tags, the supplied times, the same details -/
+def rExtended (r : Run) (t : RunTrace) : Bool :=
+  let rs := reports (r.events.filter fun e => e.status != some .exist)
+  startIds t.ext == rs.map (·.id) &&
+  (r.faults.any (· < rs.length) ||
+    match body t.ext with
     | none => false
-    | some seen => all2 replays (reports (es.filter fun e => e.status != some .exist)) seen
+    | some mid =>
+      match interp {} mid with
+      | none => false
+      | some seen => all2 replays rs seen)
 
-def perRun (c : List Event → RunTrace → Bool) (i : Input) (t : Trace) : Bool :=
+/-- a real `testtools.TestResult` behind `StreamToExtendedDecorator` is started exactly once per report, in order —
+also when one of its outcome methods raises (e.g. `addSkip` for a reason attachment that is not text) -/
+def rReal (r : Run) (t : RunTrace) : Bool :=
+  t.realStarted == (reports (r.events.filter fun e => e.status != some .exist)).map (·.id)
+
+def perRun (c : Run → RunTrace → Bool) (i : Input) (t : Trace) : Bool :=
   t.length == i.runs.length && (i.runs.zip t).all fun p => c p.1 p.2
 
 def clauses : List (String × (Input → Trace → Bool)) :=
   [("reports", perRun rDict), ("tests-run", perRun rTestsRun), ("buckets", perRun rBuckets),
-   ("error-lists", perRun rErrors), ("verdict", perRun rVerdict), ("to-extended", perRun rExtended)]
+   ("error-lists", perRun rErrors), ("verdict", perRun rVerdict), ("to-extended", perRun rExtended),
+   ("real-result", perRun rReal)]
 
 def holds (i : Input) (t : Trace) : Bool := clauses.all fun c => c.2 i t
 
